@@ -287,6 +287,9 @@ func ScenarioOf(s Script) string {
 			if o.Op == "pub" && o.PFail != "" {
 				flags["append-"+o.PFail] = true
 			}
+			if o.Op == "pub" && o.Dyn {
+				flags["dyn-publish"] = true
+			}
 		}
 	}
 	if s.Cfg.Store {
@@ -296,7 +299,7 @@ func ScenarioOf(s Script) string {
 		flags["ptimeout"] = true
 	}
 	var ks []string
-	for _, k := range []string{"once", "async", "seq", "filter", "panic", "reentrant", "store", "ptimeout", "append-rej", "append-hang"} {
+	for _, k := range []string{"once", "async", "seq", "filter", "panic", "reentrant", "store", "ptimeout", "append-rej", "append-hang", "dyn-publish"} {
 		if flags[k] {
 			ks = append(ks, k)
 		}
